@@ -170,10 +170,13 @@ func (t *Object) isSubType(target, sub Type) bool {
 	if typeEqual(target, sub) {
 		return true
 	}
-	if st, ok := sub.(*NonNull); ok && typeEqual(target, st.Base) {
-		// As a special case, if the interface expects type T and the
-		// implementation is T!, the implementation satisfies the interface.
-		return true
+	if st, ok := sub.(*NonNull); ok {
+		// A non-null implementation satisfies the interface when what it
+		// wraps does, whether or not the interface field is non-null.
+		if tn, ok := target.(*NonNull); ok {
+			return t.isSubType(tn.Base, st.Base)
+		}
+		return t.isSubType(target, st.Base)
 	}
 	switch tt := target.(type) {
 	case *Union:
@@ -193,10 +196,6 @@ func (t *Object) isSubType(target, sub Type) bool {
 	case *List:
 		if list, _ := sub.(*List); list != nil {
 			return t.isSubType(tt.Base, list.Base)
-		}
-	case *NonNull:
-		if nn, _ := sub.(*NonNull); nn != nil {
-			return t.isSubType(tt.Base, nn.Base)
 		}
 	}
 	return false
